@@ -24,4 +24,6 @@ CONSTANTS
   MinSteps = 2
   MaxSteps = 2
   RationalOnly = FALSE
+  BindLeaves = TRUE
+  EmitOn = TRUE
 CHECK_DEADLOCK FALSE
